@@ -26,7 +26,7 @@ THEOREMS = [f'Gnpy.Route.{t}' for t in (
     'min_length_unique', 'decide_constrained', 'decide_strict_blocked', 'decide_loose_dropped', 'decide_noPath',
     'decide_blocked_iff', 'clean_ok', 'clean_strict_error', 'clean_result_usable', 'ispart_iff_sublist',
     'ispart_repeated_node', 'reverse_sites', 'reverse_adjacent', 'explicit_path_unique',
-    'line_predecessor_on_route', 'explicit_path_shortest')]
+    'line_predecessor_on_route', 'explicit_path_shortest', 'explicitPath_sound')]
 RULE = ('one PRNG; a case is a random mesh (ring / 2xk or 3xk grid / random connected graph / tree+chord; quick 3-9 '
         'ROADMs, thorough up to 14; parallel-free; every link a pair of opposite lines of 1-3 spans with km-multiple '
         'lengths 1-150 km, symmetric or not; plain / Fused / explicit-Edfa lines; now and then two components or a '
